@@ -3,7 +3,7 @@
    invariants, step predicates as action properties.  Used unchanged by every MC_* configuration
    and by KrpTrace (where the variables carry the implementation's own states).  A "reset" event
    (start of a new recorded run) is not a step of the system.                                 *)
-EXTENDS PropsB
+EXTENDS PropsB, DecConsts
 
 IsStep == ev'.tx.k # "reset"
 
